@@ -74,6 +74,7 @@ func (_this *RootObjectIterator) Init(context *Context,
 // Note: This is a LOW LEVEL API. Error reporting is done via panics. Be sure
 // to recover() at an appropriate location when calling this function.
 func (_this *RootObjectIterator) Iterate(object interface{}) {
+	_this.context.referenceDepth = 0
 	_this.context.EventReceiver.OnBeginDocument()
 	_this.context.EventReceiver.OnVersion(version.ConciseEncodingVersion)
 
